@@ -104,3 +104,57 @@ func rtEqualReports(c *Ctx, n int) {
 		res.Case(fmt.Sprint("EQ|", trace), steps >= 3, cs)
 	}
 }
+
+// rtSkipInitEqual (C04): SkipInitialVerification lets an invalid initial stack in - and nothing else.  An update whose
+// stack EQUALS that unverified config is an update like any other: verified, found invalid, rejected (error to the
+// blocking reporter, view and serial unchanged, OnNewConfig silent, OnWatchedError told).
+func rtSkipInitEqual(c *Ctx, n int) {
+	res := c.Res
+	for i := 0; i < n; i++ {
+		seven := 7
+		defaults := &ruCfg{Name: "default", Count: -5, Limits: map[string]int{"d": 1}, Tags: []string{"dt"}, Opt: &seven, Sub: ruSub{Weights: map[string]int{"dw": 1}}} // Count < 0: invalid
+		src := &ruSrc{}
+		ctx, cancel := context.WithCancel(context.Background())
+		news, errs := 0, 0
+		done := make(chan struct{}, 8)
+		d, err := dials.Params[ruCfg]{SkipInitialVerification: true,
+			OnNewConfig:    func(context.Context, *ruCfg, *ruCfg) { news++; done <- struct{}{} },
+			OnWatchedError: func(context.Context, error, *ruCfg, *ruCfg) { errs++; done <- struct{}{} },
+		}.Config(ctx, defaults, src)
+		cs := map[string]any{"stream": "SkipInitialVerification, then an update equal to the unverified initial config", "round": i}
+		if err != nil {
+			res.Add(Finding{Kind: "violation", What: "Config with SkipInitialVerification failed on an invalid initial stack: " + err.Error(), Case: cs})
+			cancel()
+			continue
+		}
+		_, ser0 := d.ViewVersion()
+		before := d.View().show()
+		// the source reports a value that sets nothing new (an empty object, or the same invalid count again)
+		src.obj = reflect.New(src.obj.Type().Elem())
+		if i%2 == 1 {
+			cnt := -5
+			src.obj.Elem().FieldByName("Count").Set(reflect.ValueOf(&cnt))
+		}
+		rctx, rc := context.WithTimeout(ctx, 5*time.Second)
+		rerr := src.wa.BlockingReportNewValue(rctx, src.obj)
+		rc()
+		select {
+		case <-done:
+		case <-time.After(2 * time.Second):
+		}
+		_, ser1 := d.ViewVersion()
+		switch {
+		case rerr == nil:
+			res.Add(Finding{Kind: "violation", What: "an update whose stack fails Verify was acknowledged with nil (its stack equals the unverified initial config)", Case: cs})
+		case dials.VerifCfgSerial(ser1) != dials.VerifCfgSerial(ser0) || d.View().show() != before:
+			res.Add(Finding{Kind: "violation", What: "a rejected update changed the view or the serial", Case: cs})
+		case news != 0:
+			res.Add(Finding{Kind: "violation", What: "OnNewConfig was handed a config that fails Verify", Case: cs})
+		case errs != 1:
+			res.Add(Finding{Kind: "violation", What: fmt.Sprintf("OnWatchedError was called %d times for one rejected update (queue far from full)", errs), Case: cs})
+		}
+		cancel()
+		res.Count("skipinit-equal-update")
+		res.Case(fmt.Sprintf("SIE|%d", i%2), true, cs)
+	}
+}
